@@ -1753,6 +1753,8 @@ func (g *gen) importClause(p *pattern) importCase {
 	return ic
 }
 
+var kindFlipRe = regexp.MustCompile(`(?m)^var ([\w, ]+) identifier`)
+
 func parses(src string) bool {
 	_, err := parser.ParseFile(token.NewFileSet(), "x.go", src, parser.SkipObjectResolution)
 	return err == nil
@@ -1905,6 +1907,26 @@ func genEngineCases(seed int64, n int, mode string) []Case {
 				if next.plus != next.minus {
 					patches = []string{patch + "\n@@\n" + p.meta + "@@\n" + ic.patchHead + lineDiff(next.minus, next.plus)}
 					note += " import-name-metavar-then-literal"
+				}
+			}
+		}
+		if g.mode != "c09" && len(patches) == 1 && patches[0] == patch && strings.Contains(p.meta, " identifier") &&
+			g.chance(map[string]float64{"c02": 0.2, "c05": 0.12, "c01": 0.08, "mix": 0.08, "c03": 0.06}[g.mode]) {
+			// an earlier change declares the same names with the other kind and meets, with them, code that is not an
+			// identifier: what a name was in one change says nothing about what it is in the next
+			if m := kindFlipRe.FindStringSubmatch(p.meta); m != nil {
+				name := strings.TrimSpace(strings.Split(m[1], ",")[0])
+				flipped := strings.ReplaceAll(p.meta, " identifier", " expression")
+				probe := "@@\n" + flipped + "@@\n-zzzProbe(" + name + ", 0)\n+zzzProbed(" + name + ")\n"
+				src2 := src + "\nfunc probeSite() {\n\tzzzProbe(h(1), 1)\n\tzzzProbe(h(1), 0)\n\tzzzProbe(a.b, 0)\n\tzzzProbe(c, 0)\n\tzzzProbe(T{}, 0)\n}\n"
+				if parses(src2) {
+					src = src2
+					if g.chance(0.5) {
+						patches = []string{probe + "\n" + patch}
+					} else {
+						patches = []string{probe, patch}
+					}
+					note += " kind-flip"
 				}
 			}
 		}
